@@ -46,6 +46,7 @@ type Config struct {
 	DelayMode     bool
 	DetSched      bool
 	ExploreSelect bool
+	Unstub        []string // environment models switched off for this run (the real code is interpreted)
 	LeakCheck     bool
 	MaxSteps      int64
 	MaxDepth      int
@@ -168,6 +169,9 @@ func New(prog *ssa.Program, solver *Solver, cfg Config) *Interp {
 	in := &Interp{cfg: cfg, prog: prog, solver: solver, Covers: map[string]int{}, Unsup: map[string]int{}, Funcs: map[string]bool{}, CoverSamples: map[string][]NondetVal{}}
 	in.installIntrinsics()
 	in.installStubs()
+	for _, n := range cfg.Unstub {
+		delete(in.stubs, n)
+	}
 	return in
 }
 
